@@ -17,6 +17,14 @@ def handle : Handler
         return .list [ofArr dense, .list [], .list []]
       let r := b.evaluateSparse tol t d fr
       return .list [ofArr dense, ofArr r.data, ofNatArr r.idx]
+  | "basis_eval_batch", [bv, tolv, tsv, dv, frv] => some <| Id.run do
+      -- one call `b.evaluate([t...], d, from_right)`: the rows are independent of each other
+      let some b := decodeBasis bv | return bad
+      let some tol := tolv.toRat? | return bad
+      let some ts := tsv.toRats? | return bad
+      let some d := dv.toNat? | return bad
+      let some fr := frv.toBool? | return bad
+      return .list (ts.map (fun t => ofArr (b.evaluate tol t d fr)))
   | "basis_snap", [bv, tolv, tv] => some <| Id.run do
       let some b := decodeBasis bv | return bad
       let some tol := tolv.toRat? | return bad
